@@ -31,6 +31,10 @@ theorem history_persistent {α : Type} (ps : List (H.Prog α)) (s : H.Store)
   H.history_persistent ps s h
 
 /-- T1: the functions this property's mirror model follows have today the source text the model was written against. -/
-theorem tie : Tie.sameAll ["index.Copy", "qframe.Sort", "qframe.setColumn", "qframe.Slice", "qframe.Select", "qframe.Aggregate", "qframe.QFrame.FilteredApply", "ecolumn.toUpper", "scolumn.toUpper"] = true := by decide
+-- Tie audit (bin/selftest-ties): the following functions are not compared as text any more; every behaviour-changing edit of
+-- them makes a `gen_*_canon` theorem of this property's modules fail, renaming their locals or reformatting them changes nothing:
+-- `index.Copy`, `QFrame.Slice`, `QFrame.Select`, `QFrame.setColumn`: regenerated as `Gen.indexAst` / `Gen.projectAst` (pxast.go) and `Gen.guardAst` / `Gen.guardAst2` (gast.go),
+-- `C08ProjectGen.gen_project_canon` + `gen_project_semantics` / `gen_project_persistent`, `C08Guards.gen_guards_canon` + `gen_guards_semantics`.
+theorem tie : Tie.sameAll ["qframe.Sort", "qframe.Aggregate", "qframe.QFrame.FilteredApply", "ecolumn.toUpper", "scolumn.toUpper"] = true := by decide
 
 end QF.Props.C01
